@@ -16,50 +16,51 @@ type Opts struct {
 	OnExclude func(finding string)
 	OnClass   func(class string)
 
-	Pointers          bool // allow pointer fields
-	Unions            int  // 0 none, 1 allowed, 2 at least one
-	Hostile           bool // add unsupported forms (chan, func, anonymous struct, any, error, complex, anonymous containers of unions, …)
-	RareBasics        bool // basic kinds outside randdata's list (uint, uint32, uint64, float32, uintptr)
-	Recursion         bool // self / mutual recursion through slices, maps (and pointers when Pointers)
-	SubPkgs           bool
-	Generics          bool
-	Aliases           bool
-	Embedded          bool
-	StdTypes          bool
-	Spelling          bool // unusual but legal spellings (one-letter names, short package names, shared prefixes …)
-	TagVariety        bool // the full tag spelling catalogue of C09
-	NoIgnoreTag       bool // never put gomacro:"ignore" on a JSON-visible field (C03/C04 domain note)
-	JSONSafe          bool // only shapes whose Go JSON encoding round-trips (no bool/float map keys, no embedded time …)
-	ManySubPkgs       bool // up to 4 imported packages (C07: import lists)
-	ZeroArrays        bool // [0]T arrays (analysis-only properties)
-	NamedRecursion    bool // cycles that only go through named maps / slices: type Tree map[string]Tree (analysis-only properties)
-	DataIgnoreUnions  bool // gomacro-data:"ignore" may sit on a directly union-typed field (C15)
-	ContainerMembers  bool // union members that are named slices / maps of unions, outside the analysed file (C02)
-	StdNamedPkgs      bool // an imported user package may be named like a standard one (time)
-	ForeignUnions     bool // the analysed package may use unions (and types holding unions) of imported packages (analysis-only properties)
-	RecursiveUnions   bool // a struct member of a union may hold a value of that union
-	JSONDash          bool // json:"-" tags even without TagVariety (C15: the field is still filled)
-	SmallKeyMaps      bool // directed: a struct with a map keyed by an enum (few possible keys)
-	Diamonds          bool // directed diamond in the import graph (root -> a, root -> b, a -> b)
-	SameNameAsRoot    bool // an imported package may be named like the analysed package (models imports legacy/models)
-	NestedGenerics    bool // a generic struct with `T any` instantiated with another instantiation and with a basic type (analysis-only properties)
-	EmbedUnionIface   bool // a struct may embed a union interface (compile-only properties: the struct becomes a member of that union)
-	EmbedUnionHolders bool // an untagged embedded struct may hold union fields (they are flattened into the outer struct)
-	LongArrays        bool // directed: fixed arrays of 4..9 elements without an acceptable zero value (C15)
-	SameNamePromoted  bool // a flattened embedded struct may have a field with the Go name of an outer field, under another JSON key
-	EmbedNamed        bool // structs may embed an exported named non-struct type (a regular field for encoding/json)
-	ShortModule       bool // the analysed package may have an import path of one or two elements (module at the root)
-	SameNamePkgs      bool // two imported packages may share their package name under different paths (the importing file aliases one)
-	OtherFile         int  // out of 10: share of root declarations placed in the sibling (not analysed) file; 0 = 1
-	DataIgnore        bool // gomacro-data:"ignore" tags (C15)
-	NoValuerNames     bool // no field named Value / Scan (the type receives sql.Valuer / sql.Scanner methods)
-	EnumStress        bool // every enum declaration style of C10
-	UnionStress       bool // near misses, foreign implementers, embedded interfaces, zero-method interfaces (C11)
-	MaxDecls          int
-	MinDecls          int
-	FixedArrays       bool
-	Maps              bool
-	Times             bool
+	Pointers            bool // allow pointer fields
+	Unions              int  // 0 none, 1 allowed, 2 at least one
+	Hostile             bool // add unsupported forms (chan, func, anonymous struct, any, error, complex, anonymous containers of unions, …)
+	RareBasics          bool // basic kinds outside randdata's list (uint, uint32, uint64, float32, uintptr)
+	Recursion           bool // self / mutual recursion through slices, maps (and pointers when Pointers)
+	SubPkgs             bool
+	Generics            bool
+	Aliases             bool
+	Embedded            bool
+	StdTypes            bool
+	Spelling            bool // unusual but legal spellings (one-letter names, short package names, shared prefixes …)
+	TagVariety          bool // the full tag spelling catalogue of C09
+	NoIgnoreTag         bool // never put gomacro:"ignore" on a JSON-visible field (C03/C04 domain note)
+	JSONSafe            bool // only shapes whose Go JSON encoding round-trips (no bool/float map keys, no embedded time …)
+	ManySubPkgs         bool // up to 4 imported packages (C07: import lists)
+	ZeroArrays          bool // [0]T arrays (analysis-only properties)
+	NamedRecursion      bool // cycles that only go through named maps / slices: type Tree map[string]Tree (analysis-only properties)
+	DataIgnoreUnions    bool // gomacro-data:"ignore" may sit on a directly union-typed field (C15)
+	ContainerMembers    bool // union members that are named slices / maps of unions, outside the analysed file (C02)
+	StdNamedPkgs        bool // an imported user package may be named like a standard one (time)
+	ForeignUnions       bool // the analysed package may use unions (and types holding unions) of imported packages (analysis-only properties)
+	RecursiveUnions     bool // a struct member of a union may hold a value of that union
+	JSONDash            bool // json:"-" tags even without TagVariety (C15: the field is still filled)
+	SmallKeyMaps        bool // directed: a struct with a map keyed by an enum (few possible keys)
+	Diamonds            bool // directed diamond in the import graph (root -> a, root -> b, a -> b)
+	SameNameAsRoot      bool // an imported package may be named like the analysed package (models imports legacy/models)
+	NestedGenerics      bool // a generic struct with `T any` instantiated with another instantiation and with a basic type (analysis-only properties)
+	EmbedUnionIface     bool // a struct may embed a union interface (compile-only properties: the struct becomes a member of that union)
+	EmbedPtrNextToUnion bool // a struct with a union field may embed a pointer to an exported struct (Go-side properties only: the analysis keeps it as a plain field)
+	EmbedUnionHolders   bool // an untagged embedded struct may hold union fields (they are flattened into the outer struct)
+	LongArrays          bool // directed: fixed arrays of 4..9 elements without an acceptable zero value (C15)
+	SameNamePromoted    bool // a flattened embedded struct may have a field with the Go name of an outer field, under another JSON key
+	EmbedNamed          bool // structs may embed an exported named non-struct type (a regular field for encoding/json)
+	ShortModule         bool // the analysed package may have an import path of one or two elements (module at the root)
+	SameNamePkgs        bool // two imported packages may share their package name under different paths (the importing file aliases one)
+	OtherFile           int  // out of 10: share of root declarations placed in the sibling (not analysed) file; 0 = 1
+	DataIgnore          bool // gomacro-data:"ignore" tags (C15)
+	NoValuerNames       bool // no field named Value / Scan (the type receives sql.Valuer / sql.Scanner methods)
+	EnumStress          bool // every enum declaration style of C10
+	UnionStress         bool // near misses, foreign implementers, embedded interfaces, zero-method interfaces (C11)
+	MaxDecls            int
+	MinDecls            int
+	FixedArrays         bool
+	Maps                bool
+	Times               bool
 }
 
 func (o *Opts) gated(feature string) bool {
